@@ -149,12 +149,32 @@ def _b_float(ex, ctx, args, kw):
         assumed("float(Val)", "float(x) of a finite real SymPy number is its value as a real (IEEE rounding ignored); raises TypeError otherwise")
         res = []
         ok = M.v_real(x)
+        ext = z3.Or(M.v_kind(x) == M.PINF, M.v_kind(x) == M.NINF, M.v_kind(x) == M.NAN)  # float(oo) is inf, float(nan) is nan
+        bad = z3.And(z3.Not(ok), z3.Not(ext))
         if ex.feasible(ctx, ok):
             res.append((ctx.fork(ok), M.Val.re(x)))
-        if ex.feasible(ctx, z3.Not(ok)):
-            res.append((ctx.fork(z3.Not(ok)), ExcVal("TypeError", ("float of non-real",))))
+        if ex.feasible(ctx, ext):
+            res.append((ctx.fork(ext), x))  # the extended value itself stands for the float inf/-inf/nan
+        if ex.feasible(ctx, bad):
+            res.append((ctx.fork(bad), ExcVal("TypeError", ("float of a complex or symbolic value",))))
         return res
     raise GenError(f"float({x!r})")
+
+
+def _sympy_re_im(which):
+    def f(ex, ctx, args, kw):
+        x = ex.unopt(args[0], ctx)
+        if not (z3.is_expr(x) and x.sort() == M.Val):
+            raise GenError(f"sympy.{which}({x!r})")
+        assumed("sympy.re/im", "re(a+bi) = a and im(a+bi) = b for a finite number; re of an infinite/NaN/symbolic value is a value of the same kind")
+        if which == "re":
+            return [(ctx, z3.If(M.v_kind(x) == M.FIN, M.v_mk(M.FIN, M.Val.re(x), 0), x))]
+        return [(ctx, z3.If(M.v_kind(x) == M.FIN, M.v_mk(M.FIN, M.Val.im(x), 0), x))]
+    return Builtin(f"sympy.{which}", f)
+
+
+# names a module may import from sympy: the model is bound only when the module's own import statements bind that name
+SYMPY_NAMES = {"re": _sympy_re_im("re"), "im": _sympy_re_im("im")}
 
 
 def _b_hasattr(ex, ctx, args, kw):
@@ -286,6 +306,11 @@ def make_exec(rel_path: str, unit: str, *, globals_extra=None, contracts=None, m
     tree = ast.parse(path.read_text())
     g = dict(PY_BUILTINS)
     g.update(module_constants(tree))
+    for st in tree.body:
+        if isinstance(st, ast.ImportFrom) and st.module == "sympy":
+            for al in st.names:
+                if al.name in SYMPY_NAMES:
+                    g[al.asname or al.name] = SYMPY_NAMES[al.name]
     g.update(globals_extra or {})
     m = {"__exc_subclass__": exc_subclass}
     m.update(models or {})
